@@ -50,6 +50,11 @@ Proof. now destruct k. Qed.
 Lemma type_mk_inj k z v : scalar v -> av_type v = av_type (mk k z) -> exists b, v = mk k b.
 Proof. destruct k, v; cbn; intros Hs H; try discriminate; try contradiction; eexists; reflexivity. Qed.
 
+Lemma type_mk_inj' k z v : av_type v = av_type (mk k z) -> exists b, v = mk k b.
+Proof. destruct k, v; cbn; intros H; try discriminate; eexists; reflexivity. Qed.
+Lemma exact_scalar v : (match v with VArr _ _ | VRep _ _ | VSpc _ => False | _ => True end) -> scalar v.
+Proof. destruct v; cbn; tauto. Qed.
+
 Lemma range_arg_mk k d s j :
   - 2 ^ 31 <= j < 2 ^ 31 ->
   range_arg (mk k d) (mk k s) j = Some (mk k (wr k (s + j * d))).
@@ -87,11 +92,17 @@ Qed.
 Lemma incsize_scalar v r : scalar v -> incsize (v :: r) = 1.
 Proof. destruct v; cbn; tauto. Qed.
 
+(* a slot of a list of values and arrays of values: a value, an array header or
+   the filler behind a converted range *)
+Definition sa (v : av) : Prop := match v with VRep _ _ => False | _ => True end.
+Lemma scalar_sa v : scalar v -> sa v.
+Proof. destruct v; cbn; tauto. Qed.
+
 Lemma elem_eq_mk k x z r :
-  scalar z ->
+  sa z ->
   elem_eq [mk k x] (z :: r) =
   if av_type (mk k x) =? av_type z then av_eq_single (mk k x) z else Some false.
-Proof. destruct k, z; cbn [scalar]; intros Hs; try contradiction; reflexivity. Qed.
+Proof. destruct k, z; cbn [sa]; intros Hs; try contradiction; reflexivity. Qed.
 
 (* equality of rtosc_arg_vals_eq_single is identity - for floats and doubles
    when they are no NaN and one of the two zeroes does not occur (inrv below;
@@ -174,27 +185,24 @@ Proof.
 Qed.
 
 Lemma elem_eq_exact a0 z r1 r2 :
-  exact a0 -> scalar z ->
+  exact a0 -> sa z ->
   elem_eq (a0 :: r1) (z :: r2) = if av_type a0 =? av_type z then av_eq_single a0 z else Some false.
 Proof. destruct a0, z; cbn; intros H1 H2; try contradiction; reflexivity. Qed.
 
 Section Conv.
 Variable o : popts.
 Variable args : list av.
-Hypothesis Hsc : Forall scalar args.
+Hypothesis Hsc : Forall sa args.
 Hypothesis Hin : Forall inrv args.
 
 Lemma nth_inrv j v : nth_error args j = Some v -> inrv v.
 Proof. intros H. eapply Forall_forall; [exact Hin|]. eapply nth_error_In; exact H. Qed.
 
-Lemma nth_scalar j v : nth_error args j = Some v -> scalar v.
+Lemma nth_scalar j v : nth_error args j = Some v -> sa v.
 Proof. intros H. eapply Forall_forall; [exact Hsc|]. eapply nth_error_In; exact H. Qed.
 
-Lemma incsize_skipn j : incsize (skipn j args) = 1.
-Proof.
-  rewrite skipn_hd. destruct (nth_error args j) eqn:E; [|reflexivity].
-  apply incsize_scalar. eapply nth_scalar; exact E.
-Qed.
+Lemma incsize_skipn j v : nth_error args j = Some v -> scalar v -> incsize (skipn j args) = 1.
+Proof. intros E Hs. rewrite skipn_hd, E. now apply incsize_scalar. Qed.
 
 (* ---- runs with a step ---------------------------------------------------------------- *)
 Section Delta.
@@ -209,12 +217,13 @@ Definition chained (s : nat) : Prop :=
 
 Lemma run_loop_delta fuel size : forall s s' nc',
   run_loop fuel args size true (mk k d) (Z.of_nat s) (Z.of_nat s) = Some (s', nc') ->
-  (1 <= s)%nat -> chained s ->
-  exists n, s' = Z.of_nat n /\ nc' = Z.of_nat n /\ (s < n)%nat /\ chained (n - 1).
+  (1 <= s)%nat -> chained s -> Z.of_nat s < size ->
+  exists n, s' = Z.of_nat n /\ nc' = Z.of_nat n /\ (s < n)%nat /\ chained (n - 1) /\ Z.of_nat n <= size.
 Proof.
-  induction fuel as [|fuel IH]; intros s s' nc' Hrun Hs Hch; [discriminate|].
-  cbn [run_loop] in Hrun. rewrite skipz_nth, incsize_skipn in Hrun.
+  induction fuel as [|fuel IH]; intros s s' nc' Hrun Hs Hch Hsz; [discriminate|].
+  cbn [run_loop] in Hrun.
   destruct (Hch (s - 1)%nat ltac:(lia)) as (a0 & _ & Ha & _). replace (S (s - 1)) with s in Ha by lia.
+  rewrite skipz_nth, (incsize_skipn s _ Ha ltac:(now destruct k)) in Hrun.
   set (a := wr k (a0 + d)) in *.
   rewrite (skipn_hd args s), Ha, add_mk in Hrun.
   destruct (size <=? Z.of_nat s + 1) eqn:Esz.
@@ -222,18 +231,18 @@ Proof.
   - replace (Z.of_nat s + 1) with (Z.of_nat (S s)) in Hrun by lia. rewrite skipz_nth in Hrun.
     rewrite (skipn_hd args (S s)) in Hrun.
     destruct (nth_error args (S s)) as [z|] eqn:Ez; [|destruct k; discriminate].
-    assert (Hzs : scalar z) by (eapply nth_scalar; exact Ez).
+    assert (Hzs : sa z) by (eapply nth_scalar; exact Ez).
     rewrite (elem_eq_mk k _ z _ Hzs) in Hrun.
     destruct (av_type (mk k (wr k (a + d))) =? av_type z) eqn:Et.
-    + apply Z.eqb_eq in Et. symmetry in Et. destruct (type_mk_inj _ _ _ Hzs Et) as (b & ->).
+    + apply Z.eqb_eq in Et. symmetry in Et. destruct (type_mk_inj' _ _ _ Et) as (b & ->).
       rewrite eq_mk in Hrun. destruct (wr k (a + d) =? b) eqn:Eb.
       * apply Z.eqb_eq in Eb. subst b.
         destruct args as [|h0 t0] eqn:Eargs; [discriminate|]. cbn in Hx0. inversion Hx0; subst h0.
         rewrite <- Eargs in *.
         destruct (range_step_fits (mk k x) (mk k a) (mk k (wr k (a + d))) (mk k d)) as [[|]|] eqn:Ef;
           [| |discriminate].
-        -- apply IH in Hrun; [|lia|].
-           ++ destruct Hrun as (n & -> & -> & Hn & Hc). exists n. repeat split; try lia. exact Hc.
+        -- apply IH in Hrun; [|lia| |lia].
+           ++ destruct Hrun as (n & -> & -> & Hn & Hc & Hle). exists n. repeat split; try lia. exact Hc.
            ++ intros j Hj. destruct (Nat.eq_dec j s) as [->|Hne].
               ** exists a. repeat split; assumption.
               ** apply Hch. lia.
@@ -309,11 +318,12 @@ Definition const_run (a0 : av) (s : nat) : Prop :=
 Lemma run_loop_const fuel size a0 dl : forall s s' nc',
   exact a0 -> nth_error args 0 = Some a0 ->
   run_loop fuel args size false dl (Z.of_nat s) (Z.of_nat s) = Some (s', nc') ->
-  (1 <= s)%nat -> const_run a0 s ->
-  exists n, s' = Z.of_nat n /\ nc' = Z.of_nat n /\ (s < n)%nat /\ const_run a0 (n - 1).
+  (1 <= s)%nat -> const_run a0 s -> Z.of_nat s < size ->
+  exists n, s' = Z.of_nat n /\ nc' = Z.of_nat n /\ (s < n)%nat /\ const_run a0 (n - 1) /\ Z.of_nat n <= size.
 Proof.
-  induction fuel as [|fuel IH]; intros s s' nc' Hex H0 Hrun Hs Hch; [discriminate|].
-  cbn [run_loop] in Hrun. rewrite skipz_nth, incsize_skipn in Hrun.
+  induction fuel as [|fuel IH]; intros s s' nc' Hex H0 Hrun Hs Hch Hsz; [discriminate|].
+  cbn [run_loop] in Hrun.
+  rewrite skipz_nth, (incsize_skipn s a0 (Hch s (Nat.le_refl s)) ltac:(destruct a0; cbn in Hex |- *; tauto)) in Hrun.
   destruct (size <=? Z.of_nat s + 1) eqn:Esz.
   - inversion Hrun; subst. exists (S s). repeat split; try lia. now replace (S s - 1)%nat with s by lia.
   - replace (Z.of_nat s + 1) with (Z.of_nat (S s)) in Hrun by lia. rewrite skipz_nth in Hrun.
@@ -321,13 +331,13 @@ Proof.
     pose proof H0 as H0'.
     destruct args as [|x rest] eqn:Ea; [discriminate|]. cbn in H0. inversion H0; subst x. rewrite <- Ea in *.
     destruct (nth_error args (S s)) as [z|] eqn:Ez.
-    + assert (Hzs : scalar z) by (eapply nth_scalar; exact Ez).
+    + assert (Hzs : sa z) by (eapply nth_scalar; exact Ez).
       rewrite Ea in Hrun at 1. rewrite (elem_eq_exact a0 z rest _ Hex Hzs) in Hrun.
       destruct (av_type a0 =? av_type z) eqn:Et.
       * destruct (av_eq_single a0 z) as [[|]|] eqn:Eq; [| |discriminate].
         -- apply (eq_exact _ _ Hex (nth_inrv _ _ H0') (nth_inrv _ _ Ez)) in Eq. subst z.
            apply IH in Hrun; try assumption; try lia.
-           ++ destruct Hrun as (n & -> & -> & Hn & Hc). exists n. repeat split; try lia. exact Hc.
+           ++ destruct Hrun as (n & -> & -> & Hn & Hc & Hle). exists n. repeat split; try lia. exact Hc.
            ++ intros j Hj. destruct (Nat.eq_dec j (S s)) as [->|Hne]; [assumption|apply Hch; lia].
         -- inversion Hrun; subst. exists (S s). repeat split; try lia. now replace (S s - 1)%nat with s by lia.
       * inversion Hrun; subst. exists (S s). repeat split; try lia. now replace (S s - 1)%nat with s by lia.
@@ -401,27 +411,29 @@ Proof.
     destruct (size <=? 0 + 1); [lia|]. replace (av_type a1 =? ty) with false by (symmetry; now apply Z.eqb_neq). lia.
 Qed.
 
-Theorem range_expand_shape o args size c kk :
-  Forall scalar args -> Forall inrv args -> exact (hd VN args) ->
+Theorem range_expand_shape_sa o args size c kk :
+  Forall sa args -> Forall inrv args -> exact (hd VN args) ->
   Z.of_nat (length args) < 2 ^ 31 ->
   convert_to_range o args size = CYes c kk ->
   exists n, kk = Z.of_nat n /\ (5 <= n <= length args)%nat /\ expand c = Some (firstn n args) /\
     ((exists y, c = [VRep (Z.of_nat n) 0; hd VN args; VSpc y]) /\ firstn n args = repeat (hd VN args) n \/
      (exists k d x y, c = [VRep (Z.of_nat n) 1; mk k d; mk k x; VSpc y] /\ inr k d /\ hd VN args = mk k x /\ d <> 0 /\
         forall j, (j < n)%nat -> nth_error args j = Some (mk k (x + Z.of_nat j * d)) /\
-                                 inr k (x + Z.of_nat j * d) /\ inr k (Z.of_nat j * d))).
+                                 inr k (x + Z.of_nat j * d) /\ inr k (Z.of_nat j * d))) /\
+    Z.of_nat n <= size.
 Proof.
   intros Hsc Hin Hex Hlen Hc. unfold convert_to_range in Hc.
-  destruct ((size <? 5) || (hd_type args =? 45) || negb (compress o)); [discriminate|].
+  destruct (size <? 5) eqn:Esize5; [discriminate|]. apply Z.ltb_ge in Esize5. cbn [orb] in Hc.
+  destruct ((hd_type args =? 45) || negb (compress o)); [discriminate|].
   destruct (count_common (length args) (hd_type args) args 0 size 0 <? 5) eqn:Ecc; [discriminate|].
   destruct args as [|a0 rest] eqn:Ea; [discriminate|]. cbn [hd] in Hex.
-  assert (Hs0 : scalar a0) by now inversion Hsc.
+  assert (Hs0 : scalar a0) by (apply exact_scalar; exact Hex).
   rewrite (incsize_scalar a0 rest Hs0) in Hc. rewrite <- Ea in *.
   assert (H0 : nth_error args 0 = Some a0) by now rewrite Ea.
   change (skipz 1 args) with (skipn 1 args) in Hc. rewrite (skipn_hd args 1) in Hc.
   destruct (nth_error args 1) as [a1|] eqn:E1;
     [|rewrite Ea in Hc; destruct a0; cbn in Hex; try contradiction; discriminate].
-  assert (Hs1 : scalar a1) by (eapply nth_scalar; [exact Hsc|exact E1]).
+  assert (Hs1 : sa a1) by (eapply nth_scalar; [exact Hsc|exact E1]).
   assert (Hty : av_type a1 = av_type a0).
   { destruct (Z.eq_dec (av_type a1) (av_type a0)) as [E|E]; [exact E|exfalso].
     rewrite Ea in Ecc, E1. destruct rest as [|a1' rest']; [discriminate|]. cbn in E1. inversion E1; subst a1'.
@@ -438,8 +450,9 @@ Proof.
     { destruct (av_type a0 =? av_type a1); [|discriminate]. apply (eq_exact _ _ Hex); [eapply Forall_forall; [exact Hin|]; eapply nth_error_In; exact H0|eapply Forall_forall; [exact Hin|]; eapply nth_error_In; exact E1|assumption]. }
     subst a1.
     destruct (run_loop_const args Hsc Hin (length args) size a0 VN 1 skipped nc Hex H0 Er ltac:(lia))
-      as (n & -> & -> & Hn & Hcr).
+      as (n & -> & -> & Hn & Hcr & Hle).
     { intros j Hj. destruct j as [|[|j]]; [assumption|assumption|lia]. }
+    { lia. }
     destruct (Z.of_nat n <? 5) eqn:E5; [discriminate|]. inversion Hc; subst c kk. clear Hc.
     assert (Hnl0 : (n <= length args)%nat).
     { assert (Hsome : nth_error args (n - 1) <> None) by (rewrite (Hcr (n - 1)%nat) by lia; discriminate).
@@ -450,7 +463,7 @@ Proof.
       intros j Hj. apply Hcr. lia. }
     rewrite Ea. change (Z.to_nat 1) with 1%nat. cbn [firstn app hd]. rewrite <- Ea.
     rewrite expand_const by (try assumption; lia). rewrite Nat2Z.id.
-    split; [now rewrite Hrep|]. left. split; [eexists; reflexivity|exact Hrep].
+    split; [now rewrite Hrep|]. split; [|exact Hle]. left. split; [eexists; reflexivity|exact Hrep].
   - (* a run with a step *)
     cbn [negb andb] in Hc.
     destruct (range_convertible (hd_type args)) eqn:Erc; [|discriminate]. cbn [negb] in Hc.
@@ -473,9 +486,10 @@ Proof.
     destruct (run_loop (length args) args size true (mk k (wr k (y - x))) 1 1) as [[skipped nc]|] eqn:Er;
       [|discriminate].
     destruct (run_loop_delta args Hsc Hin k (wr k (y - x)) x H0 (length args) size 1 skipped nc Er ltac:(lia))
-      as (n & -> & -> & Hn & Hch).
+      as (n & -> & -> & Hn & Hch & Hle).
     { intros j Hj. assert (j = 0)%nat by lia. subst j. exists x. split; [assumption|].
       rewrite Hyx. split; [exact E1|exact Ef0]. }
+    { lia. }
     destruct (Z.of_nat n <? 5) eqn:E5; [discriminate|]. inversion Hc; subst c kk. clear Hc.
     (* the first two values differ, so the step is not 0 *)
     assert (Hd0 : wr k (y - x) <> 0).
@@ -492,8 +506,25 @@ Proof.
     split.
     { f_equal. symmetry. apply firstn_map_seq. intros j Hj.
       destruct (Hcl j ltac:(lia)) as (Hnj & Hrj & _). rewrite Hnj. f_equal. f_equal. symmetry. now apply wr_id. }
+    split; [|exact Hle].
     right. eexists _, _, _, _. split; [reflexivity|]. split; [apply wr_inr|]. split; [now rewrite Ea|].
     split; [exact Hd0|]. intros j Hj. apply Hcl. lia.
+Qed.
+
+Theorem range_expand_shape o args size c kk :
+  Forall scalar args -> Forall inrv args -> exact (hd VN args) ->
+  Z.of_nat (length args) < 2 ^ 31 ->
+  convert_to_range o args size = CYes c kk ->
+  exists n, kk = Z.of_nat n /\ (5 <= n <= length args)%nat /\ expand c = Some (firstn n args) /\
+    ((exists y, c = [VRep (Z.of_nat n) 0; hd VN args; VSpc y]) /\ firstn n args = repeat (hd VN args) n \/
+     (exists k d x y, c = [VRep (Z.of_nat n) 1; mk k d; mk k x; VSpc y] /\ inr k d /\ hd VN args = mk k x /\ d <> 0 /\
+        forall j, (j < n)%nat -> nth_error args j = Some (mk k (x + Z.of_nat j * d)) /\
+                                 inr k (x + Z.of_nat j * d) /\ inr k (Z.of_nat j * d))).
+Proof.
+  intros Hsc Hin Hex Hlen Hc.
+  destruct (range_expand_shape_sa o args size c kk) as (n & A & B & C & D & _); try assumption.
+  - eapply Forall_impl; [|exact Hsc]. exact scalar_sa.
+  - exists n. auto.
 Qed.
 
 Theorem range_expand o args size c kk :
